@@ -77,9 +77,12 @@ class Explorer(object):
         finished run; returns its summary and the requests met on the way."""
         attempt = 0
         script = list(script)
+        n0 = len(script)
         for _ in range(24):
             if res.status != "pending":
-                reqs = tuple((e[0], e[1]) for e in (res.log or ())[-40:])
+                # requests made after the starting point (relative: two visits of the same program
+                # state give the same continuation whatever came before)
+                reqs = tuple((e[0], e[1]) for e in (res.log or ())[n0:n0 + 40])
                 return (res.status, self.sig_of(res), reqs)
             kind = res.pending[0]
             raw = res.sim.pending_raw
@@ -99,6 +102,22 @@ class Explorer(object):
                 return ("pending", res.pending, ())
             res = self._run(script)
         return ("deep", None, ())
+
+    def _same_state(self, base, path, a_script, res_x):
+        """Is the choice request met now a *retry* of the ancestor choice at
+        path[:a_len] (rejection sampling), i.e. the same program state?  The same
+        request recurring after a uniform is not enough (two different nodes may
+        both draw randrange(2)): the canonical continuations from both points -
+        outcomes and the requests they make - must coincide."""
+        sa = list(a_script)
+        sx = base + path
+        ra = self._run(sa)
+        if ra.status != "pending" or ra.pending != res_x.pending:
+            return False
+        for high in (False, True):
+            if self._canon(sa, ra, high) != self._canon(sx, res_x, high):
+                return False
+        return True
 
     def _subtree_law(self, script):
         leaves, retry = self._expand(list(script), [], 1.0, self._cur_anchor, True)
@@ -209,13 +228,14 @@ class Explorer(object):
         kind, key = res.pending
         raw = res.sim.pending_raw
         if kind == "c":
-            if anchor is not None and from_uniform and key == anchor:
+            if anchor is not None and from_uniform and key == anchor[0] and \
+                    self._same_state(base, path, anchor[1], res):
                 self.loops += 1
                 return [], mass
             n = len(raw)
             leaves, back = [], 0.0
             for i in range(n):
-                lv, rt = self._expand(base, path + [("c", i)], mass / n, key, False)
+                lv, rt = self._expand(base, path + [("c", i)], mass / n, (key, tuple(base + path)), False)
                 leaves.extend(lv)
                 back += rt
             if back > 0.0:
